@@ -101,7 +101,10 @@ def search(res, tier, boost=False):
         fams, lists = TR.parse_rules(src_path)
     except Exception as exc:
         res.broken_obligation('search C05', 'cannot parse tables: %s' % exc)
-        return
+        try:     # read the tabulated branches anyway (an unknown fall-back branch is then covered by the request sweep)
+            fams, lists = TR.parse_rules(src_path, lenient=True)
+        except Exception:
+            fams, lists = {}, {}
 
     def harm(n):
         return sum(mpf(1) / j for j in range(1, n + 1))
